@@ -481,9 +481,14 @@ type c17RawCarCase struct {
 // c17RawCarSub: CAR files assembled byte by byte (the Writer cannot express duplicates or relabelled blocks).
 func c17RawCarSub() *engine.Sub {
 	layouts := []string{"A,B", "A,A", "A,B@cidA", "B@cidA,A", "A,B,B@cidA", "A,B@cidA,B", "A@cidB,B@cidA", "A,B@cidA,C", "A,C,B@cidC", "A,B,A"}
+	// complete sections whose payload is not cid || token: the first bytes of a CID only, a CID without data, a CID
+	// followed by one byte - before, between and after intact entries
+	for _, x := range []string{"X01", "X0101", "X010171", "X01017112", "X0101711220", "X12", "X1220", "Xff", "XCIDA", "XCIDA00", "XCIDAa0"} {
+		layouts = append(layouts, x+",A,B", "A,"+x+",B", "A,B,"+x, x)
+	}
 	return &engine.Sub{
 		Name:  "hand-built-car-files",
-		Rule:  "CAR streams assembled by the harness from a header and sections (cid || data): duplicates of a block, and blocks stored under the CID of ANOTHER block of the same file at every relative position. A file containing a block whose CID does not hash to its data must be rejected by all four CAR readers; a file with honest duplicates reads as the set of its tokens; never a partial set; non-trivial = all",
+		Rule:  "CAR streams assembled by the harness from a header and sections (cid || data): duplicates of a block, blocks stored under the CID of ANOTHER block of the same file at every relative position, and complete sections that hold no (cid, token) pair (the first 1-5 bytes of a CID, a CID without data, a CID plus one byte) before, between and after intact entries. A file containing such a section or a block whose CID does not hash to its data must be rejected by all four CAR readers; a file with honest duplicates reads as the set of its tokens; never a partial set; non-trivial = all",
 		Bound: func(string) string { return fmt.Sprintf("%d layouts over 3 tokens x 4 CAR readers", len(layouts)) },
 		Gen: func(tier string, emit func(any) bool) {
 			for _, l := range layouts {
@@ -512,6 +517,22 @@ func c17RawCarSub() *engine.Sub {
 			honest := true
 			var present []string
 			for _, sec := range strings.Split(cs.Layout, ",") {
+				if sec[0] == 'X' {
+					honest = false
+					var body []byte
+					h := sec[1:]
+					if strings.HasPrefix(h, "CIDA") {
+						body = append(body, toks["A"].Cid.Bytes()...)
+						h = h[4:]
+					}
+					rest, err := hex.DecodeString(h)
+					if err != nil {
+						panic(err)
+					}
+					body = append(body, rest...)
+					car = append(append(car, uv(len(body))...), body...)
+					continue
+				}
 				data := toks[sec[:1]].Sealed
 				c := toks[sec[:1]].Cid
 				if i := strings.Index(sec, "@cid"); i > 0 {
@@ -541,7 +562,11 @@ func c17RawCarSub() *engine.Sub {
 						ctx.Outcome("rejected")
 					case !honest:
 						ctx.Outcome("mislabelled-accepted")
-						ctx.Failf(cs, "car-block-under-another-blocks-cid-accepted", "CAR %s (%s, stream=%v): a block stored under the CID of another block of the file is not detected; %d entries returned", cs.Layout, format, stream, len(r))
+						cls, what := "car-block-under-another-blocks-cid-accepted", "a block stored under the CID of another block of the file"
+						if strings.Contains(cs.Layout, "X") {
+							cls, what = "car-section-without-a-token-accepted", "a section that holds no (cid, token) pair"
+						}
+						ctx.Failf(cs, cls, "CAR %s (%s, stream=%v): %s is not detected; %d entries returned", cs.Layout, format, stream, what, len(r))
 					default:
 						ctx.Outcome("accepted")
 						if containerView(r) != expectedSetView(present) {
